@@ -24,6 +24,8 @@ def cases(tier, seed):
     step = -(-NCODE // n)
     for i in range(n):
         yield dict(mode='single', lo=i * step, hi=min(NCODE, (i + 1) * step))
+    # columns longer than the code domain (codes repeat): every length around the powers of two up to 2^18, against the per-code decode
+    yield dict(mode='long')
     # two concurrent first decodes, every interleaving of their source lines with <= 1 preemption (a decoder that
     # builds shared state lazily must not let a second caller see it half built)
     yield dict(mode='threads', bound=1, n=2)
@@ -140,6 +142,21 @@ def run(case):
                 probs.append(dict(sig='euler16:concurrent-first-calls-differ', msg=f'{case["n"]} concurrent decodes, schedule {choices} ({pre} preemptions): a thread got triads different from the sequential decode'))
         return dict(problems=probs, nt=[('threads', case['n'], case['bound'])], evals=nexec,
                     extra=dict(line_schedules_explored=nexec, line_scheduling_points=npts, line_exploration_stuck_on_real_lock=stuck, distinct_thread_outcomes=[str(o) for o in outcomes]))
+    if mode == 'long':
+        base = tuple(np.array(a) for a in chc._unpack_euler16(codes.copy()))
+        lens = sorted({(1 << p) + d for p in range(10, 19) for d in (-1, 0, 1, 5)} | {NCODE + 1, 2 * NCODE + 3, 200003})
+        nbad = 0
+        for n in lens:
+            idx = (np.arange(n, dtype=np.int64) * 40503 + 17) % NCODE          # every code appears, order unrelated to position
+            got = chc._unpack_euler16(codes[idx].copy())
+            for name, g, b in zip(('minor', 'middle', 'major'), got, base):
+                g = np.asarray(g)
+                if g.shape != (n, 3) or not np.array_equal(g, b[idx]):
+                    row = int(np.argmax((g != b[idx]).any(axis=1))) if g.shape == (n, 3) else -1
+                    probs.append(dict(sig='euler16:long-column', msg=f'{n}-row column: {name} differs from the per-code decode, first at row {row} (shape {g.shape})'))
+                    nbad += 1
+                    break
+        return dict(problems=probs[:3], nt=[('long', n) for n in lens], evals=len(lens), extra=dict(long_columns=len(lens), long_rows=int(sum(lens))))
     if mode in ('batch', 'chunks', 'single'):
         if mode == 'batch':
             arr = codes.copy()
